@@ -188,7 +188,7 @@ fn run(c: &Case, out: &mut Out) {
     // oracle state
     let (mut with_port, mut responses, mut requests, mut pp, mut max_flows) = (true, 0u32, 0u32, false, 0u32);
     let mut pp_every = false;
-    let mut bounced = false;
+    let bounced = false;   // kept for the violation class of the (fixed) finding e2e-reactivated-listener-dead
     let mut v6 = false;
     let mut removed = false;
     let mut fd_base: Option<usize> = None;   // descriptors once the worker, listener and backends are up
@@ -450,7 +450,10 @@ fn run(c: &Case, out: &mut Out) {
                     from_scm: false,
                 }));
                 live.clear();
-                bounced = ok1 && ok2;
+                // (fixed in f3ae05e: a re-activated listener serves again, so nothing special is expected afterwards)
+                if !(ok1 && ok2) {
+                    out.viol("e2e-bounded", "DeactivateListener / ActivateListener was refused");
+                }
                 out.obs(&[ts("bounce"), tbool(ok1), tbool(ok2)]);
             }
             "recluster" => {
